@@ -132,7 +132,7 @@ func (l fline) text(p int, r *rand.Rand) string {
 	case "badmac":
 		return []string{"zz:11:22:33:44:55", "00:11:22:33:44", "001122334455", "00:11:22:33:44:55:66"}[r.Intn(4)] + " " + spellIP(p, fileAddr(p, 0), r)
 	case "badip":
-		return mac + " " + []string{"10.0.0.256", "2001:db8:::1", "notanip", "10.0.0", "1.2.3.4/24"}[r.Intn(5)]
+		return mac + " " + []string{"10.0.0.256", "2001:db8:::1", "notanip", "10.0.0", "1.2.3.4/24", "2001:db8::66%eth0", "fe80::66%2", "::ffff:10.0.0.66%lo", "10.0.0.66%eth0"}[r.Intn(9)]
 	case "wrongfamily":
 		if p == 4 {
 			return mac + " " + []string{"2001:db8::1", "::1", "fe80::1"}[r.Intn(3)]
